@@ -123,6 +123,40 @@ def run_tlc(module, cfg, wd, workers=8, timeout=900, simulate=None, heap="8g", e
     return {"stats": stats, "records": records, "out": out_path}
 
 
+def validate_trace(module, trace_path, wd, timeout=1800):
+    """Trace validation: TLC replays the recorded events on Trace_<x>.tla.
+    Returns dict(accepted, events, rejected: {index, reason, event} | None).  A trace the specification
+    cannot even replay (shape) is a tool error: specification drift, not a verdict on the code."""
+    n_events = sum(1 for _ in open(trace_path))
+    if n_events == 0:
+        raise ToolError("empty trace for %s: the hooks recorded nothing" % module)
+    env = dict(ENV)
+    env["TRACE"] = trace_path
+    cfg = os.path.join(wd, module + ".cfg")
+    make_cfg(module + ".cfg", cfg, {})
+    out = os.path.join(wd, module + ".out")
+    md = os.path.join(wd, "md-" + module)
+    cmd = ["java", "-XX:+UseParallelGC", "-Xss1g", "-Xmx8g", "-Dtlc2.tool.queue.IStateQueue=StateDeque",
+           "-cp", "/opt/veriftools/tla/tla2tools.jar:/opt/veriftools/tla/CommunityModules-deps.jar", "tlc2.TLC",
+           "-workers", "1", "-metadir", md, "-cleanup", "-noGenerateSpecTE", "-config", cfg, os.path.join(SPEC, module + ".tla")]
+    t0 = time.time()
+    with open(out, "w") as f:
+        try:
+            p = subprocess.run(cmd, stdout=f, stderr=subprocess.STDOUT, cwd=SPEC, env=env, timeout=timeout)
+        except subprocess.TimeoutExpired:
+            raise ToolError("trace validation timed out: " + module)
+    shutil.rmtree(md, ignore_errors=True)
+    text = open(out).read()
+    m = re.search(r'<<\s*"REJECTED",\s*(\d+),\s*"([^"]*)",\s*(.*?)>>\s*\n', text, re.S)
+    if m:
+        log("[trace] %s: %d events, REJECTED at %s: %s" % (module, n_events, m.group(1), m.group(2)))
+        return {"accepted": False, "events": n_events, "rejected": {"index": int(m.group(1)), "reason": m.group(2), "event": m.group(3)[:500]}}
+    if '"SHAPE"' in text or p.returncode != 0 or "Error:" in text:
+        raise ToolError("trace of %s cannot be replayed on the specification (shape / tool problem):\n%s" % (module, text[-1500:]))
+    log("[trace] %s: %d events accepted (%.1fs)" % (module, n_events, time.time() - t0))
+    return {"accepted": True, "events": n_events, "rejected": None}
+
+
 # ----------------------------------------------------------------------------- harness
 
 def cargo_build(package, profile="dev", timeout=3600):
